@@ -610,6 +610,76 @@ func tickSequence(r *vh.Run, i int) {
 	}
 }
 
+// subjectRemovedTrial (C06): "one collection pass removes ... referrers whose subject was removed".  An image older than
+// the grace period gets an artifact (young), then the image is deleted by digest and a pass runs while the artifact and
+// the referrers answer are still inside their grace period.  Once everything is older than the grace period and two
+// more passes have run (one for the answer, one for what it was holding), nothing of the artifact is left - it must not
+// end up as a "dangling" referrer that the policy (dangling referrers kept) then protects for ever.  A tagged image
+// next to it stays.  Ages are set through the hook; no clock is read.
+func subjectRemovedTrial(r *vh.Run, i int) {
+	kind := []vh.StoreKind{vh.Dir, vh.Mem, vh.MemDir}[i%3]
+	root := ""
+	if kind != vh.Mem {
+		root = r.TempDir("subj")
+		defer vh.RemoveAll(root)
+	}
+	untagged := (i/3)%2 == 1
+	srv := vh.New(vh.Conf(kind, root, vh.Policy{Untagged: untagged, Dangling: false, WithSubj: true, Grace: time.Hour}))
+	defer func() { _ = srv.Close() }()
+	wit := map[string]any{"trial": i, "store": kind.String(), "gc_untagged": untagged}
+	cfg := &vh.Blob{Name: "cfg", B: []byte(fmt.Sprintf("subject removed config %d", i))}
+	cfg.D = vh.DigestOf("sha256", cfg.B)
+	lay := []byte(fmt.Sprintf("artifact layer %d", i))
+	ld := vh.DigestOf("sha256", lay)
+	put := func(m *vh.Man, ref string) int {
+		return vh.Do(srv, vh.Req{Method: "PUT", URL: "/v2/q/manifests/" + ref, H: map[string]string{"Content-Type": m.MT}, Body: m.Raw}).Status
+	}
+	keep := vh.MkImage("keep", "sha256", vh.MTImage, cfg, vh.MTConfig, nil, "", "", map[string]string{"k": fmt.Sprint(i)})
+	subj := vh.MkImage("subj", "sha256", vh.MTImage, cfg, vh.MTConfig, nil, "", "", map[string]string{"s": fmt.Sprint(i)})
+	art := vh.MkImage("art", "sha256", vh.MTImage, cfg, vh.MTConfig, []vh.Descriptorish{{MT: vh.MTLayer, D: ld, Size: len(lay)}}, subj.D, "application/x.sig", map[string]string{"a": fmt.Sprint(i)})
+	vh.Do(srv, vh.Req{Method: "POST", URL: "/v2/q/blobs/uploads/?digest=" + cfg.D, Body: cfg.B})
+	vh.Do(srv, vh.Req{Method: "POST", URL: "/v2/q/blobs/uploads/?digest=" + ld, Body: lay})
+	if put(keep, "kept") != 201 || put(subj, subj.D) != 201 {
+		r.Inconclusive("subjectRemovedTrial: setup refused")
+		return
+	}
+	old := time.Now().Add(-3 * time.Hour)
+	if _, err := srv.VerifSetAllBlobTimes(context.Background(), "q", old); err != nil {
+		r.Inconclusive("subjectRemovedTrial: cannot age the blobs: " + err.Error())
+		return
+	}
+	if put(art, art.D) != 201 {
+		r.Inconclusive("subjectRemovedTrial: artifact refused")
+		return
+	}
+	if st := vh.Do(srv, vh.Req{Method: "DELETE", URL: "/v2/q/manifests/" + subj.D}).Status; st != 202 {
+		r.Inconclusive(fmt.Sprintf("subjectRemovedTrial: delete of the subject answered %d", st))
+		return
+	}
+	_ = srv.VerifGC(context.Background(), "q") // the artifact and its answer are young
+	if _, err := srv.VerifSetAllBlobTimes(context.Background(), "q", old); err != nil {
+		r.Inconclusive("subjectRemovedTrial: cannot age the blobs: " + err.Error())
+		return
+	}
+	_ = srv.VerifGC(context.Background(), "q")
+	_ = srv.VerifGC(context.Background(), "q")
+	r.Count("subject_removed_trials", 1)
+	r.Distinct("subject_removed_cells", fmt.Sprintf("%s/%v", kind, untagged))
+	head := func(u string) int {
+		return vh.Do(srv, vh.Req{Method: "HEAD", URL: u, H: map[string]string{"Accept": vh.AcceptAll}}).Status
+	}
+	ref := vh.Do(srv, vh.Req{Method: "GET", URL: "/v2/q/referrers/" + subj.D})
+	am, al := head("/v2/q/manifests/"+art.D), head("/v2/q/blobs/"+ld)
+	wit["artifact_manifest"], wit["artifact_layer"], wit["referrers"] = am, al, strings.TrimSpace(string(ref.Body))
+	if am == 200 || al == 200 || strings.Contains(string(ref.Body), art.D) {
+		r.Violation("referrer-of-removed-subject-survives", fmt.Sprintf("%s store (untagged collection %v, referrers collected with their subject, dangling referrers kept, grace 1h): an artifact was attached to an old image, the image deleted, a pass run while the artifact was young; after everything was aged and two more passes ran the artifact manifest answers %d, its layer %d, the referrers of the deleted image are %.150s - the referrer of a removed subject is never removed", kind, untagged, am, al, strings.TrimSpace(string(ref.Body))), wit)
+		return
+	}
+	if st := head("/v2/q/manifests/kept"); st != 200 {
+		r.Violation("tagged-image-lost:subject-removed", fmt.Sprintf("the tagged image next to the deleted subject answers %d after the passes", st), wit)
+	}
+}
+
 // completionRace (C05, binary built with the filesystem shim): a collection and the completion of an upload meet on
 // one blob file.  An unreferenced copy of X, older than the grace period, lies in the store; a client uploads X again
 // through a session.  The collection is held (by the shim, right before the call) at the moment it removes the old
